@@ -165,6 +165,11 @@ def r20_3(ctx):
                     rd = _deps(e["rhs"], env)
                     if set(cand) & rd and e["rhs"].get("k") == "Call" and show(e["rhs"]["f"]) == "Some":
                         found.append((show(e["lhs"]), conds))
+                elif k in ("Return", "Break") and e.get("e") is not None:
+                    # the same search written with an early `return Some(candidate)` / `break Some(candidate)`
+                    rd = _deps(e["e"], env)
+                    if set(cand) & rd and e["e"].get("k") == "Call" and show(e["e"]["f"]) == "Some":
+                        found.append(("result", conds))
 
             visit(lp["body"], {c: {c} for c in cand}, [])
             for lhs, conds in found:
